@@ -900,6 +900,9 @@ def run_mf_field_mix(c):
     f = mkfield(libdom(fd), R.fill(refdom(fd).shape, "f8", c["seed"], 1))
     x, y = (F, f) if c["order"] == 0 else (f, F)
     okl, r = call(lambda: _lib_binary(c["op"], x, y))
+    if okl and c["op"] in ("eq", "ne") and isinstance(r, bool) and r == (c["op"] == "ne"):
+        # both operands answered NotImplemented: Python's identity fallback ("not equal"), nothing was combined
+        return ok(outcome="mix-not-comparable|%s" % c["pair"])
     if okl:
         kind = "vdot" if "vdot" in c["op"] else "binary-op-broadcasts-field-over-entries"
         return bad("%s between a %s and a %s (a MultiDomain and a DomainTuple are different domains) was accepted: "
